@@ -442,6 +442,12 @@ func (g *gen) of(t reflect.Type, depth int) E {
 		})
 	case strings.HasPrefix(name, "b6.Collection[") || name == "b6.UntypedCollection":
 		element := func() E { return g.any(depth - 1) }
+		switch g.pick("elementkind", 4) {
+		case 0:
+			element = g.int
+		case 1:
+			element = g.float
+		}
 		for suffix, f := range map[string]func() E{
 			"b6.Tag]": tag, "b6.Feature]": feature, "b6.Identifiable]": g.id, "b6.FeatureID]": g.id, "b6.Geometry]": geometry, "b6.Area]": area, ",int]": g.int,
 			",float64]": g.float, ",string]": g.str, "ingest.Change]": change, "b6.UntypedCollection]": func() E { return g.collection(0, g.int) },
